@@ -61,4 +61,20 @@ REGISTRY = {
         "mc": [],
         "assumptions": TOK_ASSUME + ["LookAhead ('a few bytes') is fixed at 6 in spec/TraceLat.tla", "the absolute bound is claimed for HTML-namespace input; inside escaped script data / CDATA only schedule independence is claimed for observer configurations"],
     },
+    "C04": {
+        "level": "model_checking",
+        "traces": [{"job": "c04", "module": "TraceSel", "cfg": "TraceSel.cfg", "timeout": 1200, "timeout_thorough": 10800}],
+        "mc": [],
+        "assumptions": ["spec/Selectors.tla is the reference reading of Selectors Level 4 for the supported grammar, evaluated by TLC on the tree induced by explicit tags",
+                        "the harness renders selector ASTs to CSS text and tag lists to HTML (injective printers) and maps invocations to tags by source offset",
+                        "namespace of each start tag (only used for 'self-closing closes a foreign element') is taken from lol-html's own report",
+                        "attribute names avoid HTML's case-insensitive-value list (type, lang, ...), so the default value comparison is case-sensitive"],
+    },
+    "C05": {
+        "level": "model_checking",
+        "traces": [{"job": "c05", "module": "TraceScope", "cfg": "TraceScope.cfg", "timeout": 1200, "timeout_thorough": 10800}],
+        "mc": [],
+        "assumptions": ["spec/Scope.tla recomputes scopes from the open-element stack of the tag tree and the reference match sets of spec/Selectors.tla; it shares no bookkeeping scheme with lol-html",
+                        "invocations are attributed to document items by source offset (plumbing); the order among end-tag handlers of different elements closed by one end tag and among several end handlers is not constrained"],
+    },
 }
